@@ -199,4 +199,14 @@ PROPS = {
             {"name": "c05.concurrent-failures", "pkg": ROUTING, "test": "TestVerifC05ConcurrentFailures", "shards_t": 4, "shards_q": 2, "crash_is_violation": True},
         ],
     },
+    "C13": {
+        "level": "exploration",
+        "technique": "stateful rapid property test on the node simulator; invariant over the per-peer send log (history oracle)",
+        "level_text": "Histories with previous-node blocks, failing and succeeding transmissions, retry ticks and restarts are played per replicating algorithm; the log of what each scripted peer was handed (bundle ID on the wire + outcome) is checked against: never the previous node, never again after a success, again after a failure.",
+        "level_note": "the 'eligible again' clause is evaluated at retry ticks; for PRoPHET while peers have advertised a higher predictability since the last restart, for spray-and-wait while copies remain, not asserted for binary spray (its budget is C18's subject)",
+        "assumptions": ["direct delivery to the destination node is exempt (statement)", "the second copy of a duplicate reception is dropped by the node, so its previous node is not asserted"],
+        "units": [
+            {"name": "c13.histories", "pkg": ROUTING, "test": "TestVerifC13Histories", "shards_t": 16, "shards_q": 6, "crash_is_violation": True},
+        ],
+    },
 }
